@@ -282,7 +282,7 @@ Hypothesis HuP : i_unit pit = i_unit c0.
 Hypothesis HuE : i_unit eit = i_unit c0.
 
 Variable ii : option (list cell).
-Hypothesis Hneed : need_of numeq (mkmlas l ii) = Some false.
+Hypothesis Hneed : need_of fmtv numeq ifmt (mkmlas l ii) = Some false.
 
 (* -- ~Version ------------------------------------------------------------------------------------ *)
 Lemma in_cls key items x : filter (in_class c key) items = [x] -> In x items.
